@@ -1,2 +1,57 @@
-Theorem C16_placeholder : True. Proof. exact I. Qed.
-Print Assumptions C16_placeholder.
+(* C16 — the printed load listing denotes the warrior it was printed from.
+   Listing.load_code_text is the literal model of warrior.go LoadCode /
+   sim.go addressSigned (run against gmars on every run, kind 12);
+   LoadPrint.read_listing is the independently written reader of pMARS load
+   listings (START label, ORG START / END START, signed fields, implied
+   modifier in '88 mode). *)
+From GM Require Import Base Text Token Parser Compile Load Listing Sim Meaning LoadPrint AsmSpec C06Proof C10Proof C16Proof.
+Open Scope N_scope.
+
+(* every well-formed warrior, every core size up to 2^63, both dialects, every entry point:
+   the listing reads back to exactly the instructions and entry point *)
+Theorem C16_listing_denotes :
+  forall m legacy code start,
+    0 < m -> m <= 2 ^ 63 ->
+    Forall (fun i => i_a i < m /\ i_b i < m) code ->
+    (legacy = true -> Forall (fun i => legal88 i = true) code) ->
+    (0 <= start < Z.of_nat (length code))%Z ->
+    read_listing legacy m (load_code_text m legacy code start) = Some (code, start).
+Proof. exact listing_denotes. Qed.
+Print Assumptions C16_listing_denotes.
+
+(* the empty warrior prints nothing, which reads back as the empty warrior *)
+Theorem C16_empty :
+  forall m legacy start, read_listing legacy m (load_code_text m legacy [] start) = Some ([], 0%Z).
+Proof. exact listing_empty. Qed.
+Print Assumptions C16_empty.
+
+(* warriors produced by the assembler (C06) satisfy the hypotheses: whatever compile accepts reads back *)
+Theorem C16_after_assembler :
+  forall cfg lines meta code start meta',
+    0 < c_size cfg -> c_size cfg <= 2 ^ 63 ->
+    compile cfg lines meta = COk code start meta' -> code <> [] ->
+    read_listing (c_mode cfg =? 0) (c_size cfg) (load_code_text (c_size cfg) (c_mode cfg =? 0) code start) = Some (code, start).
+Proof.
+  intros cfg lines meta code start meta' Hm Hm' E Hne.
+  destruct (compile_accepts_wf cfg lines meta code start meta' E) as [Hwf [Hs [_ H88]]].
+  apply listing_denotes; try assumption.
+  - intros L. apply H88. apply N.eqb_eq. exact L.
+  - destruct Hs as [H0 [H1 | [_ H2]]]; [split; assumption|congruence].
+Qed.
+Print Assumptions C16_after_assembler.
+
+(* and so do warriors produced by the load-file reader (C10) *)
+Theorem C16_after_loader :
+  forall cfg s code start,
+    3 <= c_size cfg -> c_size cfg <= 2 ^ 63 ->
+    parse_load_file cfg s = LOk code start -> (start < Z.of_nat (length code))%Z ->
+    read_listing (c_mode cfg =? 0) (c_size cfg) (load_code_text (c_size cfg) (c_mode cfg =? 0) code start) = Some (code, start).
+Proof.
+  intros cfg s code start Hm Hm' E Hlt.
+  destruct (load_accepts_wf cfg s code start Hm E) as [Hwf [Hs H88]].
+  apply listing_denotes; try assumption.
+  - apply N.lt_le_trans with 3; [reflexivity|exact Hm].
+  - intros L. apply H88. apply N.eqb_eq. exact L.
+  - split; [apply Hs|exact Hlt].
+Qed.
+Print Assumptions C16_after_loader.
